@@ -85,6 +85,156 @@ def walk_line(kind, base, maxrep, replies):
     return f"walk {op} {values.dotted(base).encode().hex()} {maxrep} {','.join(pdus)}"
 
 
+def bulkiter_trace(mode, ncalls, outs):
+    """drive the real GetBulkIter classes (sync_client/getbulk.py, async_client/client.py) over a scripted socket:
+    outs = [("L", [int | None, ...]) | ("E", class name)]; returns the per-call outcomes as the model prints them"""
+    import asyncio
+    import gufo.snmp as pkg
+    EXC = {"BlockingIOError": BlockingIOError, "StopAsyncIteration": StopAsyncIteration, "TimeoutError": TimeoutError,
+           "SnmpDecodeError": pkg.SnmpDecodeError, "SnmpAuthError": pkg.SnmpAuthError}
+    script = list(outs)
+
+    def socket_call():
+        if not script:
+            raise RuntimeError("script exhausted")
+        kind, arg = script.pop(0)
+        if kind == "L":
+            return [None if x is None else ("1.3.%d" % x, x) for x in arg]
+        raise EXC[arg]()
+
+    def show(f):
+        try:
+            v = f()
+        except (StopIteration, StopAsyncIteration):
+            return "S"
+        except RuntimeError as e:
+            return "X:Other" if "script exhausted" in str(e) else "X:RuntimeError"
+        except BaseException as e:  # noqa: BLE001
+            n = type(e).__name__
+            return "X:" + (n[2:] if n.startswith("PySnmp") else n)
+        if not (isinstance(v, tuple) and len(v) == 2):
+            return f"?{v!r}"
+        return f"i{v[1]}"
+    res = []
+    if mode == "sync":
+        from gufo.snmp.sync_client.getbulk import GetBulkIter
+
+        class Sock:
+            def get_bulk(self, ctx):
+                return socket_call()
+        it = GetBulkIter(Sock(), "1.3.6", 10)
+        for _ in range(ncalls):
+            res.append(show(lambda: next(it)))
+        return res
+    from gufo.snmp.async_client.client import GetBulkIter as AIter
+
+    class ASock:
+        def send_get_bulk(self, ctx):
+            pass
+
+        def recv_get_bulk(self, ctx):
+            return socket_call()
+
+    class Sess:
+        _sock = ASock()
+
+        async def _send(self, f):
+            f()
+
+        async def _recv(self, f):
+            return f()
+    it = AIter(Sess(), "1.3.6", 10)
+    loop = asyncio.new_event_loop()
+    try:
+        for _ in range(ncalls):
+            res.append(show(lambda: loop.run_until_complete(it.__anext__())))
+    finally:
+        loop.close()
+    return res
+
+
+def nextiter_trace(mode, outs):
+    """the real GetNextIter classes over a scripted socket; outs = [("V", int) | ("E", class name)]"""
+    import asyncio
+    import gufo.snmp as pkg
+    EXC = {"BlockingIOError": BlockingIOError, "StopAsyncIteration": StopAsyncIteration, "TimeoutError": TimeoutError,
+           "SnmpDecodeError": pkg.SnmpDecodeError, "SnmpAuthError": pkg.SnmpAuthError, "ValueError": ValueError}
+    script = list(outs)
+
+    def socket_call():
+        kind, arg = script.pop(0)
+        if kind == "V":
+            return arg
+        raise EXC[arg]()
+
+    def show(f):
+        try:
+            return f"pyok {f()}"
+        except BaseException as e:  # noqa: BLE001
+            n = type(e).__name__
+            return "pyerr " + (n[2:] if n.startswith("PySnmp") else n)
+    res = []
+    if mode == "sync":
+        from gufo.snmp.sync_client.getnext import GetNextIter
+
+        class Sock:
+            def get_next(self, ctx):
+                return socket_call()
+        it = GetNextIter(Sock(), "1.3.6")
+        return [show(lambda: next(it)) for _ in outs]
+    from gufo.snmp.async_client.client import GetNextIter as AIter
+
+    class ASock:
+        def send_get_next(self, ctx):
+            pass
+
+        def recv_get_next(self, ctx):
+            return socket_call()
+
+    class Sess:
+        _sock = ASock()
+
+        async def _send(self, f):
+            f()
+
+        async def _recv(self, f):
+            return f()
+    it = AIter(Sess(), "1.3.6")
+    loop = asyncio.new_event_loop()
+    try:
+        return [show(lambda: loop.run_until_complete(it.__anext__())) for _ in outs]
+    finally:
+        loop.close()
+
+
+def bulkiter_expected(mode, ncalls, outs):
+    """what the calls must give, written down from the documented behaviour of the iterator (independent of the Lean
+    model): buffered rows are served in order without a socket call; the stop marker ends the iteration; an empty
+    reply or StopAsyncIteration from the socket ends it; a socket timeout is TimeoutError; other errors propagate"""
+    script = list(outs)
+    buf = []
+    res = []
+    for _ in range(ncalls):
+        if buf:
+            v = buf.pop(0)
+            res.append("S" if v is None else f"i{v}")
+            continue
+        if not script:
+            res.append("X:Other")
+            continue
+        kind, arg = script.pop(0)
+        if kind == "E":
+            res.append("S" if arg == "StopAsyncIteration" else ("X:TimeoutError" if arg == "BlockingIOError" else f"X:{arg}"))
+            continue
+        buf = list(arg)
+        if not buf:
+            res.append("S")
+            continue
+        v = buf.pop(0)
+        res.append("S" if v is None else f"i{v}")
+    return res
+
+
 def run(chk, model_ok=True):
     rng = random.Random(chk.seed)
     quick = chk.tier == "quick"
@@ -178,7 +328,70 @@ def run(chk, model_ok=True):
         "stream (incl. non-canonical OIDs) go through the Rust harness and the Lean model. distinct = distinct "
         "(mode, kind, base, yields, ending).",
         lambda ln, out: True)
-    chk.coverage["evaluations"] = n_walks + len(st.lines)
+    # the Python GetBulkIter wrappers on their own (buffer, stop marker, exception translation) against Py.bulkRun
+    blines, bimpl = [], []
+    for k in range(300 if quick else 12000):
+        mode = "sync" if k % 2 == 0 else "async"
+        ncalls = rng.randrange(1, 14)
+        outs = []
+        for _ in range(ncalls):
+            r = rng.random()
+            if r < 0.6:
+                n_items = rng.choice([0, 1, 1, 2, 3, 5, 8, 25])
+                items = [None if rng.random() < 0.15 else rng.randrange(1000) for _ in range(n_items)]
+                outs.append(("L", items))
+            else:
+                names = ["StopAsyncIteration", "SnmpDecodeError", "SnmpAuthError", "TimeoutError"] + (["BlockingIOError"] if mode == "sync" else [])
+                outs.append(("E", rng.choice(names)))
+        enc = ";".join(("L:" + (".".join("N" if x is None else str(x) for x in o[1]) or "-")) if o[0] == "L" else f"E:{o[1]}" for o in outs)
+        blines.append(f"bulkiter {ncalls} {enc}")
+        got_tr = bulkiter_trace(mode, ncalls, outs)
+        bimpl.append("ok " + ",".join(got_tr))
+        want_tr = bulkiter_expected(mode, ncalls, outs)
+        if got_tr != want_tr and bad < 5:
+            bad += 1
+            k0 = next(i for i, (a, b) in enumerate(zip(got_tr, want_tr)) if a != b)
+            chk.violation("oracle", f"{mode} GetBulkIter over socket outcomes {enc[:120]}: call {k0 + 1} gave {got_tr[k0]}, the rows and "
+                          f"markers received determine {want_tr[k0]} (all calls: {','.join(got_tr)[:120]} vs {','.join(want_tr)[:120]})",
+                          {"kind": "oracle", "lines": [blines[-1]], "impl": [",".join(got_tr)], "expected": ",".join(want_tr)})
+    if model_ok:
+        mo, _, _ = common.run_model(blines)
+        diffs = [(l, a, b) for l, a, b in zip(blines, bimpl, mo + ["<missing>"] * (len(blines) - len(mo))) if a != b]
+        if diffs:
+            # which side is right? the specification of the wrapper: rows before the marker in order, then stop; a
+            # socket timeout is TimeoutError; nothing is dropped, nothing invented
+            chk.violation("correspondence", f"GetBulkIter wrapper vs Py.bulkRun: {len(diffs)} of {len(blines)} traces differ; first: "
+                          f"{diffs[0][0][:140]} python={diffs[0][1][:90]} model={diffs[0][2][:90]}",
+                          {"kind": "correspondence", "stream": "bulkiter", "lines": [d[0] for d in diffs[:10]], "impl": [d[1] for d in diffs[:10]],
+                           "model": [d[2] for d in diffs[:10]],
+                           "broken": ["correspondence bulkiter: Lean Py.bulkRun vs sync_client/getbulk.py and async_client/client.py GetBulkIter"]})
+    # the GetNextIter wrappers: what they hand on for each outcome of the socket step
+    nlines, nimpl = [], []
+    NAMES = ["StopAsyncIteration", "SnmpDecodeError", "SnmpAuthError", "TimeoutError", "ValueError"]
+    for k in range(100 if quick else 4000):
+        mode = "sync" if k % 2 == 0 else "async"
+        outs = [("V", rng.randrange(-5, 1000)) if rng.random() < 0.5 else ("E", rng.choice(NAMES + (["BlockingIOError"] * 2 if mode == "sync" else [])))
+                for _ in range(rng.randrange(1, 8))]
+        nlines.append(f"nextiter {mode} " + ",".join(f"{a}:{b}" for a, b in outs))
+        got = nextiter_trace(mode, outs)
+        nimpl.append(";".join(got))
+        want = [f"pyok {b}" if a == "V" else "pyerr " + ({"BlockingIOError": "TimeoutError", "StopAsyncIteration": "StopIteration"}.get(b, b) if mode == "sync" else b)
+                for a, b in outs]
+        if got != want and bad < 5:
+            bad += 1
+            chk.violation("oracle", f"{mode} GetNextIter over socket outcomes {nlines[-1][9:][:120]}: handed on {got}, documented: {want}",
+                          {"kind": "oracle", "lines": [nlines[-1]], "impl": [";".join(got)], "expected": ";".join(want)})
+    if model_ok:
+        mo, _, _ = common.run_model(nlines)
+        nd = [(l, a, b) for l, a, b in zip(nlines, nimpl, mo + ["<missing>"] * (len(nlines) - len(mo))) if a != b]
+        if nd:
+            chk.violation("correspondence", f"GetNextIter wrapper vs Py.syncNextMap / asyncNextMap: {len(nd)} of {len(nlines)} differ; first: "
+                          f"{nd[0][0][:120]} python={nd[0][1][:80]} model={nd[0][2][:80]}",
+                          {"kind": "correspondence", "stream": "nextiter", "lines": [d[0] for d in nd[:10]], "impl": [d[1] for d in nd[:10]],
+                           "model": [d[2] for d in nd[:10]], "broken": ["correspondence nextiter: Lean Py.syncNextMap vs sync_client/getnext.py"]})
+    chk.coverage["nextiter_traces"] = len(nlines)
+    chk.coverage["bulkiter_traces"] = len(blines)
+    chk.coverage["evaluations"] = n_walks + len(st.lines) + len(blines) + len(nlines)
     chk.coverage["distinct_nontrivial"] = len(distinct)
     chk.coverage["e2e_walks"] = n_walks
     chk.coverage["e2e_exchanges"] = n_exch
